@@ -125,6 +125,11 @@ func runC09(p *eng.Prog, r *eng.Report, tier string) {
 	}
 	r.Note("bare assertions in scope: %d, explicit panics in scope: %d", nAssert, nPanic)
 	chanRules(c, "C09.4", fns, why)
+	// C09.18 (= C06.6) every response is released exactly once: an unreleased
+	// response wedges the serve loop, a second release panics
+	respRelease(c, "C09.18", 8)
+	// C09.17 lock order
+	lockOrder(c, "C09.17")
 	// C09.16 handler callbacks are nil-tested
 	nCb := handlerCallbacksChecked(c, "C09.16")
 	c.r.Floor("C09.16", "callback fields called by handlers", nCb, 5)
